@@ -485,9 +485,14 @@ def check_C05(history):
                     out.append(V("C05", "unset-unmarked",
                                  f"removal of state {r['state']} of {vm_os} was requested although its producer does not mark it",
                                  seq=ev["seq"], modes=sorted(modes), request_mode=r["mode"]))
-                # nobody may be producing or using the state at this instant ...
+                # nobody of the same reuse scope may be producing or using the state at this instant ...
+                node_scope = configured(history, epoch, "pool_scope", "own swarm cluster shared")
+                my_scope = scope_key({"pool_scope": node_scope, "worker": ev["worker"],
+                                      "spawner": worker_spawner(history, events, ev["worker"])})
                 for ex in execs:
                     st = ex["start"]
+                    if scope_key({"pool_scope": node_scope, "worker": st["worker"], "spawner": st.get("spawner")}) != my_scope:
+                        continue  # another reuse scope keeps its own copies of the state
                     end_seq = ex["end"]["seq"] if ex["end"] is not None else float("inf")
                     uses = any(n["obj"] == r["obj"] and n["state"] == r["state"] for n in st["needs"])
                     makes = any(s_["obj"] == r["obj"] and s_["state"] == r["state"] for s_ in st["sets"])
